@@ -495,7 +495,48 @@ def case_inplace(case, col=None):
         raise Violation("inplace_then_number:hash", f"{what}: hash differs from hash({n})")
 
 
+TEMP_NAMES = ["kelvin", "degree_Celsius", "degree_Fahrenheit", "degree_Rankine", "millikelvin"]
+
+
+def case_inplace_temp(case, col=None):
+    """A temperature converted in place (after its flags have been looked at) compares, hashes and tests like a freshly built quantity
+    with the same value and unit."""
+    ureg = env.ureg("Fraction")
+    ua, ub, prime = case["ua"], case["ub"], case["prime"]
+    T = Fraction(case["T"])  # kelvin
+    from .c03 import TEMP_UNITS
+
+    sa, oa = TEMP_UNITS[ua]
+    sb, ob = TEMP_UNITS[ub]
+    q = ureg.Quantity((T - oa) / sa, ua)
+    if col is not None:
+        col.case(("it", str(case)), ua != ub, sample=case, cls=f"temp:{prime}")
+    if prime == "bool":
+        attempt(bool, q)
+    elif prime == "eq0":
+        attempt(lambda: q == 0)
+    elif prime == "cmp":
+        attempt(lambda: q > ureg.Quantity(1, "kelvin"))
+    elif prime == "mul":
+        attempt(lambda: q * 2)
+    q.ito(ub)
+    fresh = ureg.Quantity((T - ob) / sb, ub)
+    if q.magnitude != fresh.magnitude or dict(q._units) != dict(fresh._units):
+        raise Violation("inplace_conversion_wrong", f"Q({(T - oa) / sa},{ua}).ito({ub}) = {q.magnitude} {dict(q._units)}, expected {fresh.magnitude}")
+    partners = [ureg.Quantity(0, "kelvin"), ureg.Quantity(0, "degree_Celsius"), ureg.Quantity(Fraction(27315, 100), "kelvin"), 0, ureg.Quantity(0, "degree_Rankine")]
+    for pt in partners:
+        for tag, fn in (("==", lambda o: o == pt), ("r==", lambda o: pt == o), ("!=", lambda o: o != pt), ("<", lambda o: o < pt), (">=", lambda o: o >= pt), ("bool", lambda o: bool(o)),
+                        ("hash", lambda o: hash(o))):
+            ra, rb = attempt(fn, q), attempt(fn, fresh)
+            same = (ra[0] == rb[0]) and ((ra[0] == "err" and type(ra[1]) is type(rb[1])) or (ra[0] == "ok" and ra[1] == rb[1]))
+            if not same:
+                raise Violation(f"object_history_changes_comparison:{tag}", f"Q({(T - oa) / sa},{ua}) after {prime} and ito({ub}) {tag} {pt!r}: {ra[1]!r}; a fresh Q({fresh.magnitude},{ub}) gives {rb[1]!r}")
+
+
 def run_inplace(task, tier, seed, col):
+    tstrat = st.builds(lambda a, b, T, pr: {"ua": a, "ub": b, "T": T, "prime": pr}, st.sampled_from(TEMP_NAMES), st.sampled_from(TEMP_NAMES),
+                       st.sampled_from([Fraction(0), Fraction(27315, 100), Fraction(45967, 180), Fraction(300), Fraction(1, 2)]), st.sampled_from(["none", "bool", "eq0", "cmp", "mul"]))
+    hyp_search(col, tstrat, lambda c: case_inplace_temp(c, col), max_examples=300 if tier == "quick" else 3000, seed=seed * 349 + task["shard"])
     hyp_search(col, _inplace_strategy(), lambda c: case_inplace(c, col), max_examples=500 if tier == "quick" else 8000, seed=seed * 337 + task["shard"])
 
 
@@ -542,6 +583,8 @@ def run_task(task, tier, seed, col):
 
 def replay(sub, case):
     extra = {"compound": case_compound, "inplace": case_inplace, "context": case_context}
+    if sub == "inplace" and "T" in case:
+        return case_inplace_temp(case)
     if sub in extra:
         return extra[sub](case)
     return {"triples": case_triple, "temperature": case_temp, "cross": case_cross, "numbers": case_number, "floats": case_float,
